@@ -344,6 +344,7 @@
 		cmp	ebx, FLAGS_CPUID7_EBX_AVX512_G1
 		lea	mbin_rbx, [%6 WRT_OPT] ; AVX512/06 opt
 		cmove	mbin_rsi, mbin_rbx
+		jne	_%1_init_done	  ; the AVX512 Update/10 code needs the G1 features too
 
 		and	ecx, FLAGS_CPUID7_ECX_AVX512_G2
 		cmp	ecx, FLAGS_CPUID7_ECX_AVX512_G2
@@ -489,6 +490,7 @@
 		cmp	ebx, FLAGS_CPUID7_EBX_AVX512_G1
 		lea	mbin_rbx, [%6 WRT_OPT] ; AVX512/06 opt
 		cmove	mbin_rsi, mbin_rbx
+		jne	_%1_init_done	  ; the AVX512 + SHANI code needs the G1 features too
 
 		;; Test for SHANI
 		xor	ecx, ecx
